@@ -113,9 +113,9 @@ func (s *Service) HandleMessage(ctx context.Context, conn ReadWriterContext, req
 
 // Shutdown shuts down the listener of a running service.
 func (s *Service) Shutdown() error {
-	s.running = false
 	s.mutex.Lock()
 	defer s.mutex.Unlock()
+	s.running = false
 	if s.listener == nil {
 		return nil
 	}
@@ -143,6 +143,13 @@ func (s *Service) handleConnection(ctx context.Context, conn net.Conn, wg *sync.
 	}
 
 	conn.Close()
+}
+
+// isRunning reads the running flag under the mutex; Shutdown and teardown write it from other goroutines.
+func (s *Service) isRunning() bool {
+	s.mutex.Lock()
+	defer s.mutex.Unlock()
+	return s.running
 }
 
 func (s *Service) teardown() {
@@ -269,7 +276,7 @@ func (s *Service) Listen(ctx context.Context, address string, timeout time.Durat
 	l := s.listener
 	s.mutex.Unlock()
 
-	for s.running {
+	for s.isRunning() {
 		if timeout != 0 {
 			if err := s.refreshTimeout(timeout); err != nil {
 				return err
@@ -286,7 +293,7 @@ func (s *Service) Listen(ctx context.Context, address string, timeout time.Durat
 				s.mutex.Unlock()
 				continue
 			}
-			if !s.running {
+			if !s.isRunning() {
 				return nil
 			}
 			return err
@@ -318,7 +325,7 @@ func (s *Service) DoListen(ctx context.Context, timeout time.Duration) error {
 	s.running = true
 	s.mutex.Unlock()
 
-	for s.running {
+	for s.isRunning() {
 		if timeout != 0 {
 			if err := s.refreshTimeout(timeout); err != nil {
 				return err
@@ -335,7 +342,7 @@ func (s *Service) DoListen(ctx context.Context, timeout time.Duration) error {
 				s.mutex.Unlock()
 				continue
 			}
-			if !s.running {
+			if !s.isRunning() {
 				return nil
 			}
 			return err
@@ -357,7 +364,7 @@ func (s *Service) RegisterInterface(iface dispatcher) error {
 		return fmt.Errorf("interface '%s' already registered", name)
 	}
 
-	if s.running {
+	if s.isRunning() {
 		return fmt.Errorf("service is already running")
 	}
 	s.interfaces[name] = iface
